@@ -1,6 +1,6 @@
 """C19 (a) -- converter expression trees: builders, instrumented callbacks, observers, generators.
 
-Case (Lean `Attrs.C19.Conv.Case`): tree, mode, inputs, inst, field, fname, bg   + harness-only `cfg`.
+Case (Lean `Attrs.C19.Conv.Case`): tree, mode, inputs, inst, field, flds   + harness-only `cfg`.
 Tree JSON: {"fn":{name,beh}} | {"conv":{name,beh,ts,tf}} | {"pipe":{"cs":[..]}} | {"optional":{"c":..}} |
            {"dinV":{"d":VAL}} | {"dinF":{"g":name,"beh":beh}};  VAL = "none" | {"v":{"s":text}}.
 """
@@ -209,10 +209,10 @@ def _alias(name):
 _N = [0]
 
 
-def make_class(case, conv_for_x, default=attr.NOTHING):
-    """class with the field under test (+ optional background field y)"""
+def make_class(case, make_conv, default=attr.NOTHING):
+    """class with the case's fields: every `shared` field gets THE SAME converter object (unless cfg.share ==
+    'rebuilt': then an equal one built separately), the others a plain converter fy"""
     cfg = case.get("cfg", {})
-    fname = case["fname"]
     api = cfg.get("api", "attr.s")
     mode = case["mode"]
     kw = {}
@@ -220,35 +220,34 @@ def make_class(case, conv_for_x, default=attr.NOTHING):
         kw["slots"] = cfg["slots"]
     if cfg.get("frozen") and mode in ("init", "initDefault"):
         kw["frozen"] = True
-    fkw = {"converter": conv_for_x}
-    if default is not attr.NOTHING:
-        fkw["default"] = default
-    if cfg.get("kw_only"):
-        fkw["kw_only"] = True
+    hooks = None
     if mode in ("assign", "setter"):
         hook = cfg.get("hook", "cls")
         hooks = attr.setters.convert if not cfg.get("hook_pipe") else [attr.setters.convert, attr.setters.validate]
-        if api == "attr.s":
-            if hook == "cls":
-                kw["on_setattr"] = hooks
-            else:
-                fkw["on_setattr"] = hooks
-        elif hook == "field":
-            fkw["on_setattr"] = hooks
-        # define: default on_setattr is [convert, validate]
+        if api == "attr.s" and hook == "cls":
+            kw["on_setattr"] = hooks
+            hooks = None
+        elif api != "attr.s" and hook != "field":
+            hooks = None       # define: default on_setattr is [convert, validate]
     mk = attr.ib if api in ("attr.s", "make_class") else attrs.field
     body = {}
-    bg = case.get("bg", "none")
-    ykw = {"converter": make_fn("fy", "term")}
-    if cfg.get("kw_only"):
-        ykw["kw_only"] = True
-    if bg == "before":
-        body["y"] = mk(**ykw)
-    body[fname] = mk(**fkw)
-    if bg == "after":
-        if default is not attr.NOTHING:
-            ykw["kw_only"] = True      # a mandatory field may follow a defaulted one only as keyword-only
-        body["y"] = mk(**ykw)
+    the_conv = make_conv()
+    seen_default = False
+    for f in case["flds"]:
+        if f["shared"]:
+            fkw = {"converter": the_conv if cfg.get("share", "object") == "object" else make_conv()}
+            if default is not attr.NOTHING:
+                fkw["default"] = default
+                seen_default = True
+            if cfg.get("kw_only"):
+                fkw["kw_only"] = True
+            if hooks is not None:
+                fkw["on_setattr"] = hooks
+        else:
+            fkw = {"converter": make_fn("fy", "term")}
+            if cfg.get("kw_only") or seen_default:
+                fkw["kw_only"] = True   # a mandatory field may follow a defaulted one only as keyword-only
+        body[f["name"]] = mk(**fkw)
     _N[0] += 1
     name = f"C{_N[0] % 7}"
     if api == "make_class":
@@ -262,14 +261,18 @@ def make_class(case, conv_for_x, default=attr.NOTHING):
     return cls
 
 
+def _exc_text(e):
+    # the callback's own exception object must come out, whatever its class
+    if any(e is x for x in RAISED):
+        return "!user:" + e.c19_name
+    return "!" + common.exc_kind(e).replace("user:", "foreign-user:")
+
+
 def _outcome(thunk):
     try:
         return "=" + render(thunk())
     except BaseException as e:  # noqa: BLE001
-        # the callback's own exception object must come out, whatever its class
-        if any(e is x for x in RAISED):
-            return "!user:" + e.c19_name
-        return "!" + common.exc_kind(e).replace("user:", "foreign-user:")
+        return _exc_text(e)
 
 
 def observe(case):
@@ -304,39 +307,40 @@ def observe(case):
                     return lst if cfg.get("list_form") == "list" else tuple(lst)
                 return build(tree, cfg)
 
-            fname = case["fname"]
-            bgk = case.get("bg", "none")
+            flds = case["flds"]
+            shared = [f["name"] for f in flds if f["shared"]]
             if mode == "initDefault" and cfg.get("dflt_style", "value") == "value":
                 for val in case["inputs"]:
                     v = decode(val)
-                    cls = make_class(case, conv(), default=v)
-                    results.append(_run_init(cls, fname, None, bgk, use_default=True))
+                    cls = make_class(case, conv, default=v)
+                    results.extend(_run_init(cls, flds, None, use_default=True))
             else:
                 cell = [None]
                 if mode == "initDefault":
-                    cls = make_class(case, conv(), default=attr.Factory(lambda: cell[0]))
+                    cls = make_class(case, conv, default=attr.Factory(lambda: cell[0]))
                 else:
-                    cls = make_class(case, conv())
+                    cls = make_class(case, conv)
                 CUR["cls"] = cls
                 if mode in ("init", "initDefault"):
                     for val in case["inputs"]:
                         cell[0] = decode(val)
-                        results.append(_run_init(cls, fname, cell[0], bgk, use_default=(mode == "initDefault")))
+                        results.extend(_run_init(cls, flds, cell[0], use_default=(mode == "initDefault")))
                 else:
                     o = cls.__new__(cls)
-                    fld = getattr(attr.fields(cls), fname)
                     for val in case["inputs"]:
                         v = decode(val)
-                        n0 = len(CUR["insts"])
-                        if mode == "assign":
-                            def thunk():
-                                setattr(o, fname, v)
-                                return getattr(o, fname)
-                            results.append(_outcome(thunk))
-                        else:
-                            results.append(_outcome(lambda: attr.setters.convert(o, fld, v)))
-                        if any(i is not o for i in CUR["insts"][n0:]):
-                            LOG.append("!wrong-instance")
+                        for fname in shared:
+                            n0 = len(CUR["insts"])
+                            if mode == "assign":
+                                def thunk():
+                                    setattr(o, fname, v)
+                                    return getattr(o, fname)
+                                results.append(_outcome(thunk))
+                            else:
+                                fld = getattr(attr.fields(cls), fname)
+                                results.append(_outcome(lambda: attr.setters.convert(o, fld, v)))
+                            if any(i is not o for i in CUR["insts"][n0:]):
+                                LOG.append("!wrong-instance")
         return {"results": results, "trace": list(LOG)}
     finally:
         del LOG[:], RAISED[:]
@@ -345,25 +349,25 @@ def observe(case):
         CUR["insts"] = []
 
 
-def _run_init(cls, fname, v, bgk, use_default):
+def _run_init(cls, flds, v, use_default):
+    """one instantiation: the stored value of every sharing field, or the one exception"""
     CUR["cls"] = cls
     n0 = len(CUR["insts"])
     kw = {}
-    if not use_default:
-        kw[_alias(fname)] = v
-    if bgk != "none":
-        kw["y"] = _reg(Tok("ty"))
-    box = []
-
-    def thunk():
+    for f in flds:
+        if f["shared"]:
+            if not use_default:
+                kw[_alias(f["name"])] = v
+        else:
+            kw[_alias(f["name"])] = _reg(Tok("ty"))
+    try:
         o = cls(**kw)
-        box.append(o)
-        return getattr(o, fname)
-
-    r = _outcome(thunk)
-    if box and any(i is not box[0] for i in CUR["insts"][n0:]):
+    except BaseException as e:  # noqa: BLE001
+        return [_exc_text(e)]
+    out = [_outcome(lambda n=f["name"]: getattr(o, n)) for f in flds if f["shared"]]
+    if any(i is not o for i in CUR["insts"][n0:]):
         LOG.append("!wrong-instance")
-    return r
+    return out
 
 
 # ------------------------------------------------------------------------------------------- generation
@@ -371,7 +375,19 @@ def _run_init(cls, fname, v, bgk, use_default):
 FN_NAMES = ["f1", "f2", "f3", "f4"]
 FAC_NAMES = ["g1", "g2"]
 MODES = ["standalone", "init", "initDefault", "assign", "setter"]
-FNAMES = ["x", "_p", "val", "converter_x"]
+FNAMES = ["x", "_p", "val", "converter_x", "z", "b2"]
+BGNAMES = ["y", "w"]
+
+
+def rand_flds(rng, mode):
+    """the class's fields: 1-3 fields sharing the one converter object, 0-2 fields with their own converter"""
+    n_sh = rng.choice([1, 1, 2, 2, 3]) if mode != "standalone" else 1
+    names = rng.sample(FNAMES, n_sh)
+    flds = [{"name": n, "shared": True} for n in names]
+    if mode in ("init", "initDefault"):
+        for n in rng.sample(BGNAMES, rng.choice([0, 0, 1, 1, 2])):
+            flds.insert(rng.randrange(len(flds) + 1), {"name": n, "shared": False})
+    return flds
 INPUT_POOL = ["none", {"v": {"s": "t0"}}, {"v": {"s": "t1"}}, {"v": {"s": "0"}}, {"v": {"s": "''"}},
               {"v": {"s": "[]"}}, {"v": {"s": "False"}}]
 DFLT_POOL = [{"v": {"s": "d0"}}, {"v": {"s": "d1"}}, {"v": {"s": "0"}}, "none", {"v": {"s": "False"}}]
@@ -425,6 +441,7 @@ def rand_cfg(rng, mode):
         "din_pos": rng.random() < 0.5,
         "exc": rng.choice(list(EXC_CLASSES)),
         "rebuild": rng.random() < 0.3,
+        "share": rng.choice(["object", "object", "object", "rebuilt"]),
     }
 
 
@@ -436,14 +453,13 @@ def rand_inputs(rng):
     return ins
 
 
-def mk_case(rng, tree, mode=None, inputs=None):
+def mk_case(rng, tree, mode=None, inputs=None, flds=None):
     mode = mode or rng.choice(MODES)
     return {
         "kind": "conv", "tree": tree, "mode": mode,
         "inputs": inputs if inputs is not None else rand_inputs(rng),
         "inst": rng.choice(["I0", "I1"]), "field": rng.choice(["F0", "F1"]),
-        "fname": rng.choice(FNAMES),
-        "bg": rng.choice(["none", "none", "before", "after"]) if mode in ("init", "initDefault") else "none",
+        "flds": flds if flds is not None else rand_flds(rng, mode),
         "cfg": rand_cfg(rng, mode),
     }
 
@@ -486,9 +502,17 @@ def small_trees(level):
 def gen_cases(tier, rng):
     std_inputs = ["none", {"v": {"s": "t0"}}, "none", {"v": {"s": "0"}}, {"v": {"s": "t0"}}]
     # structured block: small trees x every mode
+    several = [{"name": "x", "shared": True}, {"name": "y", "shared": False}, {"name": "z", "shared": True},
+               {"name": "_p", "shared": True}]
     for t in small_trees(2 if tier == "quick" else 3):
         for mode in MODES:
             yield mk_case(rng, t, mode, list(std_inputs))
+            if mode != "standalone":
+                # one converter object on three fields of the class (and a field with its own converter between)
+                fl = several if mode in ("init", "initDefault") else [f for f in several if f["shared"]]
+                c = mk_case(rng, t, mode, [{"v": {"s": "t0"}}, "none"], flds=fl)
+                c["cfg"]["share"] = "object"
+                yield c
     # law-shaped trees: nested pipes vs flat pipes, optional / default_if_none around Converters at every level
     n = 9000 if tier == "quick" else 150000
     for _ in range(n):
@@ -541,7 +565,8 @@ def dist(case, obs):
         "conv.n_inputs": len(case["inputs"]),
         "conv.outcome": "fault" if any(r.startswith("!") for r in res) else "ok",
         "conv.api": case.get("cfg", {}).get("api"),
-        "conv.bg": case.get("bg"),
+        "conv.n_sharing_fields": sum(1 for f in case["flds"] if f["shared"]),
+        "conv.n_other_fields": sum(1 for f in case["flds"] if not f["shared"]),
         "conv.exc_class": case.get("cfg", {}).get("exc") if any(r.startswith("!") for r in res) else "-",
     }
 
@@ -572,24 +597,26 @@ def shrink(case):
     if len(ins) > 1:
         for i in range(len(ins)):
             yield dict(case, inputs=ins[:i] + ins[i + 1:])
-    if case["bg"] != "none":
-        yield dict(case, bg="none")
+    fl = case["flds"]
+    for i in range(len(fl)):
+        rest = fl[:i] + fl[i + 1:]
+        if any(f["shared"] for f in rest):
+            yield dict(case, flds=rest)
     base = {"api": "attr.s", "slots": None, "frozen": False, "kw_only": False, "hook": "cls", "hook_pipe": False,
             "list_form": None, "dflt_style": "value", "dinf": "kw", "din_pos": False, "exc": "UserError",
-            "rebuild": False}
+            "rebuild": False, "share": "object"}
     cfg = case.get("cfg", {})
     for k, v in base.items():
         if cfg.get(k) != v:
             yield dict(case, cfg=dict(cfg, **{k: v}))
-    if case["fname"] != "x":
-        yield dict(case, fname="x")
+    if len(fl) == 1 and fl[0]["name"] != "x":
+        yield dict(case, flds=[{"name": "x", "shared": True}])
 
 
 def neighbours(case, rng):
     for mode in MODES:
         c = dict(case, mode=mode, cfg=rand_cfg(rng, mode))
-        if mode not in ("init", "initDefault"):
-            c["bg"] = "none"
         yield c
+        yield dict(c, flds=rand_flds(rng, mode))
         yield dict(c, inputs=list(INPUT_POOL))
     yield from shrink(case)
